@@ -40,11 +40,14 @@ import (
 func main() { vlib.Run("C05", run) }
 
 func run(c *vlib.Ctx) {
-	c.Rule("scripts of 1-5 rounds x 1-3 concurrent GetBlock/GetBlocks calls (plain service, Session, context-embedded session; exchange with/without session support) over a pool of 6-12 payloads x {v0, v1-dag-pb, v1-raw} alias CIDs + md5 / truncated-sha256 invalid CIDs, request lists of 0-9 CIDs with duplicates, part of the pool already local (possibly under an alias); scripted exchange behaviour per multihash: deliver / omit / duplicate / reorder / early close (+ unrequested, alias-CID, wrong-bytes in the hostile strata), store writes and deliveries delayed by PRNG-chosen amounts; distinct = FNV of config + script; non-trivial = the exchange actually executed a non-plain behaviour (omit, duplicate, early close, unrequested, alias, wrong bytes) on >= 1 block AND some requested block was local")
+	c.Rule("scripts of 1-5 rounds x 1-3 concurrent GetBlock/GetBlocks calls (plain service, Session, context-embedded session; exchange with/without session support) over a pool of 6-12 payloads x {v0, v1-dag-pb, v1-raw} alias CIDs + md5 / truncated-sha256 invalid CIDs, request lists of 0-9 CIDs with duplicates, part of the pool already local (possibly under an alias); scripted exchange behaviour per multihash: deliver / omit / duplicate / reorder / early close (+ unrequested, alias-CID, wrong-bytes in the hostile strata), store writes and deliveries delayed by PRNG-chosen amounts; distinct = FNV of config + script; stratum store-fault: honest exchange, the harness's local store fails the next 1-3 writes of PRNG-chosen multihashes before applying anything and the exchange rejects some NotifyNewBlocks calls; non-trivial = (the exchange actually executed a non-plain behaviour (omit, duplicate, early close, unrequested, alias, wrong bytes) on >= 1 block OR a store write failure was actually injected) AND some requested block was local")
 	c.Cases("honest", c.N(1400, 28000), func(k *vlib.Case) { script(k, "honest") })
 	c.Cases("honest-conc", c.N(600, 12000), func(k *vlib.Case) { script(k, "honest-conc") })
 	c.Cases("hostile-unrequested", c.N(500, 10000), func(k *vlib.Case) { script(k, "unrequested") })
 	c.Cases("hostile-bytes", c.N(500, 10000), func(k *vlib.Case) { script(k, "bytes") })
+	// honest exchange, but the local store fails PRNG-chosen writes (error
+	// before applying) and the exchange sometimes rejects NotifyNewBlocks
+	c.Cases("store-fault", c.N(600, 12000), func(k *vlib.Case) { script(k, "fault") })
 }
 
 // ---------------------------------------------------------------- pool
@@ -110,11 +113,39 @@ type slowStore struct {
 	bstore.Blockstore
 	delay map[string]int // by multihash
 	puts  int64
+
+	// fault injection: the next failLeft[mh] writes of that multihash fail
+	// before anything is applied.
+	fmu      sync.Mutex
+	failLeft map[string]int
+	failed   int64
+}
+
+var errInjected = errors.New("harness: injected local store write failure (nothing written)")
+
+func (s *slowStore) shouldFail(bs ...blocks.Block) bool {
+	s.fmu.Lock()
+	defer s.fmu.Unlock()
+	fail := false
+	for _, b := range bs {
+		m := string(b.Cid().Hash())
+		if s.failLeft[m] > 0 {
+			s.failLeft[m]--
+			fail = true
+		}
+	}
+	if fail {
+		s.failed++
+	}
+	return fail
 }
 
 func (s *slowStore) Put(ctx context.Context, b blocks.Block) error {
 	pause(s.delay[string(b.Cid().Hash())])
 	atomic.AddInt64(&s.puts, 1)
+	if s.shouldFail(b) {
+		return errInjected
+	}
 	return s.Blockstore.Put(ctx, b)
 }
 
@@ -123,6 +154,9 @@ func (s *slowStore) PutMany(ctx context.Context, bs []blocks.Block) error {
 		pause(s.delay[string(b.Cid().Hash())])
 	}
 	atomic.AddInt64(&s.puts, int64(len(bs)))
+	if s.shouldFail(bs...) {
+		return errInjected
+	}
 	return s.Blockstore.PutMany(ctx, bs)
 }
 
@@ -156,6 +190,8 @@ type world struct {
 	poisoned     map[string]bool // multihash for which the exchange delivered wrong bytes
 	misbehaved   int
 	notified     int
+	notifyFail   map[string]int // multihash -> remaining NotifyNewBlocks failures
+	notifyFailed int
 	sessionsMade int
 }
 
@@ -288,8 +324,16 @@ func (e *scriptEx) GetBlocks(ctx context.Context, ks []cid.Cid) (<-chan blocks.B
 
 func (e *scriptEx) NotifyNewBlocks(ctx context.Context, blks ...blocks.Block) error {
 	e.w.mu.Lock()
+	defer e.w.mu.Unlock()
 	e.w.notified += len(blks)
-	e.w.mu.Unlock()
+	for _, b := range blks {
+		m := string(b.Cid().Hash())
+		if e.w.notifyFail[m] > 0 {
+			e.w.notifyFail[m]--
+			e.w.notifyFailed++
+			return errors.New("harness: injected NotifyNewBlocks failure")
+		}
+	}
 	return nil
 }
 func (e *scriptEx) Close() error { return nil }
@@ -345,7 +389,7 @@ func script(k *vlib.Case, profile string) {
 	case "bytes":
 		kinds = append(kinds, "wrongbytes", "wrongbytes")
 	}
-	allDeliver := r.Chance(1, 3) && strings.HasPrefix(profile, "honest")
+	allDeliver := (r.Chance(1, 3) && strings.HasPrefix(profile, "honest")) || (profile == "fault" && r.Chance(1, 2))
 	var bdesc []string
 	for i := 0; i < np; i++ {
 		b := behaviour{kind: vlib.Pick(r, kinds), prio: r.Intn(8)}
@@ -377,7 +421,8 @@ func script(k *vlib.Case, profile string) {
 
 	plain := bstore.NewBlockstore(dssync.MutexWrap(ds.NewMapDatastore()))
 	w.plain = plain
-	w.local = &slowStore{Blockstore: plain, delay: map[string]int{}}
+	w.local = &slowStore{Blockstore: plain, delay: map[string]int{}, failLeft: map[string]int{}}
+	w.notifyFail = map[string]int{}
 	for i := 0; i < np; i++ {
 		switch r.Intn(3) {
 		case 0:
@@ -397,6 +442,21 @@ func script(k *vlib.Case, profile string) {
 		}
 	}
 	k.Logf("local before: [%s]", strings.Join(seeded, " "))
+	if profile == "fault" {
+		var fd []string
+		for i := 0; i < np; i++ {
+			switch r.Intn(6) {
+			case 0, 1, 2:
+				n := r.Range(1, 3)
+				w.local.failLeft[w.pool[i].mhs] = n
+				fd = append(fd, fmt.Sprintf("%d:put-fails-x%d", i, n))
+			case 3:
+				w.notifyFail[w.pool[i].mhs] = 1
+				fd = append(fd, fmt.Sprintf("%d:notify-fails-x1", i))
+			}
+		}
+		k.Logf("faults: [%s]", strings.Join(fd, " "))
+	}
 
 	base := &scriptEx{w: w}
 	var xi exchange.Interface = base
@@ -472,7 +532,7 @@ func script(k *vlib.Case, profile string) {
 				wg.Add(1)
 				go func(cl call) {
 					defer wg.Done()
-					w.runCall(ctx, svc, sharedSession, sessCtx, cl, allDeliver && w.cutAt < 0, localAt)
+					w.runCall(ctx, svc, sharedSession, sessCtx, cl, allDeliver && w.cutAt < 0 && profile != "fault", localAt)
 				}(calls[ci])
 			}
 			wg.Wait()
@@ -503,8 +563,13 @@ func script(k *vlib.Case, profile string) {
 	mis := w.misbehaved
 	k.C.Count("exchange_misbehaviours_executed", int64(mis))
 	k.C.Count("exchange_sessions_created", int64(w.sessionsMade))
+	k.C.Count("injected_notify_failures", int64(w.notifyFailed))
 	w.mu.Unlock()
-	if mis > 0 && sawLocalRequest {
+	w.local.fmu.Lock()
+	injected := w.local.failed
+	w.local.fmu.Unlock()
+	k.C.Count("injected_store_write_failures", injected)
+	if (mis > 0 || injected > 0) && sawLocalRequest {
 		k.Nontrivial()
 	}
 }
